@@ -233,7 +233,7 @@ class Ctx:
         self.exit_code = 1 if new else 0
 
     def _write_replay(self, r):
-        d = os.path.join(VERIF, "replays", self.pid)
+        d = os.path.join(os.environ.get("VERIF_REPLAY_DIR") or os.path.join(VERIF, "replays"), self.pid)
         os.makedirs(d, exist_ok=True)
         h = hashlib.sha1(json.dumps([r["clause"], r["sig"], r["case"]], sort_keys=True).encode()).hexdigest()[:12]
         path = os.path.join(d, h + ".json")
@@ -242,7 +242,8 @@ class Ctx:
         return path
 
     def _write_evidence(self, ev):
-        d = os.path.join(VERIF, "evidence")
+        # runs against a scratch copy (mutant evaluation) must not overwrite the evidence of the real tree
+        d = os.environ.get("VERIF_EVIDENCE_DIR") or os.path.join(VERIF, "evidence")
         os.makedirs(d, exist_ok=True)
         path = os.path.join(d, self.pid + ".json")
         tmp = path + ".tmp"
